@@ -98,7 +98,7 @@ Proof.
     assert (Hin1 : forall x, In x (frefs (ts ++ kids)) <-> In x (frefs kids) \/ In x (frefs ts)).
     { intros x. rewrite frefs_app, in_app_iff. tauto. }
     split; [|split; [|split; [|split]]].
-    + intros x Hx. rewrite frefs_cons, trefs_eq in Hx. cbn [app] in Hx. rewrite in_app_iff in Hx.
+    + intros x Hx. rewrite frefs_cons, trefs_eq in Hx. cbn [app In] in Hx. rewrite in_app_iff in Hx.
       destruct (in_dec N.eq_dec x (frefs (ts ++ kids))) as [Hi|Hn'].
       * now apply Hgone.
       * rewrite (Hframe x Hn'). rewrite Hin1 in Hn'. destruct Hx as [Hx|Hx]; [|tauto].
